@@ -3,7 +3,7 @@
    Properties.v (same rules: Qed, Print Assumptions within the allow-list). *)
 From Coq Require Import Reals QArith Qreals Qabs List Lra Lia.
 From EsVerif.Common Require Import Base.
-From EsVerif.C09 Require Import Gen Model Spec Geometry Proofs Rows Isometry Wrappers FloatShift FloatConsts Conditioning ConditioningTol Loops.
+From EsVerif.C09 Require Import Gen Model Spec Geometry Proofs Rows Isometry Wrappers FloatShift FloatLon FloatConsts Conditioning ConditioningTol Loops.
 Import ListNotations.
 Open Scope R_scope.
 
@@ -32,6 +32,12 @@ Proof. exact shiftlon_exact_is_unrounded. Qed.
 Theorem C09_euler_lon_float_range : forall m, 0 <= m < twopi_f ->
   fmt (rnd (m * r2d_f)) /\ 0 <= rnd (m * r2d_f) <= 360.
 Proof. exact euler_lon_float_range. Qed.
+
+(* and strictly below 360 when the remainder m is itself a binary64 number (it is: C fmod is exact): the run-time value
+   360.0 cannot come out of euler / rotate *)
+Theorem C09_euler_lon_float_strict : forall m, fmt m -> 0 <= m < twopi_f ->
+  0 <= rnd (m * r2d_f) <= p360 /\ p360 < 360.
+Proof. exact euler_lon_float_strict. Qed.
 
 Theorem C09_float_consts_close :
   Rabs (twopi_f - 2 * PI) <= / 1125899906842624 /\ Rabs (r2d_f - 180 / PI) <= / 140737488355328.
